@@ -263,7 +263,10 @@ def histLoop (x : Locale) (acc : String) : List String → String
         let pp := match ExtMap.fromBytes pe with
           | .ok em => Locale.fromParts pl ps pr pv (some em) == y
           | _ => false
-        histLoop y (acc ++ s!" # {renderOut out}@{renderLoc y};rp={b01 rp};pp={b01 pp}") os
+        let sd := match Serde.serialize y.id with
+          | .str t => t == y.id.display && Serde.deserialize (.str t) == .ok y.id
+          | _ => false
+        histLoop y (acc ++ s!" # {renderOut out}@{renderLoc y};rp={b01 rp};pp={b01 pp};sd={b01 sd}") os
 
 def ansHist (a : List String) : String :=
   match a with
@@ -362,7 +365,7 @@ def specHistLoop (a : Spec.AbsLoc) (acc : String) : List String → String
     | none => acc ++ " # na"
     | some op =>
       let (b, out) := Spec.absStep cldrLikely a op
-      specHistLoop b (acc ++ s!" # {renderOut out}@{renderLocV (Spec.toLocV b)};rp=1;pp=1") os
+      specHistLoop b (acc ++ s!" # {renderOut out}@{renderLocV (Spec.toLocV b)};rp=1;pp=1;sd=1") os
 
 def specHist (a : List String) : Option String :=
   match a with
@@ -683,7 +686,10 @@ def answer (line : String) : String :=
         let lis := match LangId.fromBytes v with
           | .ok li =>
             let l2 := Locale.ofLangId li
-            s!"ok {renderLi li};str={esc li.display};ee={b01 l2.ext.isEmpty};back={b01 (l2.toLangId == li)};lstr={esc l2.display}"
+            let can := match LangId.canonicalize v, Locale.canonicalize v with
+              | .ok a, .ok b => b01 (a == b)
+              | _, _ => "e"
+            s!"ok {renderLi li};str={esc li.display};ee={b01 l2.ext.isEmpty};back={b01 (l2.toLangId == li)};lstr={esc l2.display};can={can}"
           | .err e => errCode e
           | .panic => "panic"
         let locs := match Locale.fromBytes v with
